@@ -109,6 +109,17 @@ PROPS = {
         "assumptions": ["manifest groups are valid per ValidateManifest; a Deploy error is a refusal, not a violation"],
         "units": [{"pkg": "provider/cluster/kube", "run": "^TestVerif_C11$", "checks": {Q: 400, T: 8000}, "shards": {Q: 2, T: 16}, "timeout": {Q: 600, T: 3000}, "shrinktime": "30s"}],
     },
+    "C09": {
+        "level": "exploration", "floor": 0.3,
+        "technique": "property-based testing: generated client-certificate classes against the real cert keeper/querier behind tls.Config.VerifyPeerCertificate, real TLS 1.3 handshakes against an httptest server built from the gateway's router and TLS config, generated request paths/parameters with recorded lease/deployment ids",
+        "level_text": "Certificates are built with crypto/x509 in 14 classes (genuine; forged copies of a valid entry's name+serial with a fresh key or another tenant's key; revoked; unknown; expired; not yet valid; without client-auth usage; two-element chains; non-address CN; differing issuer; re-issued by the registered key; expired twin of a valid entry; foreign CN) and registered through the real cert keeper; VerifyPeerCertificate must accept exactly the genuine class. Real handshakes confirm what a client observes, and for every generated path (numbers, overflowing numbers, other tenants' addresses, '..', encoded slashes, owner=/provider= parameters) every id recorded by the mocked cluster/manifest services carries the authenticated owner and this provider.",
+        "level_note": "Trusted: Go crypto/tls and crypto/x509; wall clock only inside the code under test (validity windows are days away from the boundary); provider services are mockery mocks that record their arguments.",
+        "assumptions": ["ECDSA P-256 certificates; TLS 1.3"],
+        "units": [
+            {"pkg": "provider/gateway/rest", "run": "^TestVerif_C09_Verify$", "checks": {Q: 400, T: 8000}, "shards": {Q: 2, T: 16}, "timeout": {Q: 600, T: 3000}, "shrinktime": "30s"},
+            {"pkg": "provider/gateway/rest", "run": "^TestVerif_C09_Handshake$", "checks": {Q: 150, T: 2000}, "shards": {Q: 2, T: 16}, "timeout": {Q: 600, T: 3000}, "shrinktime": "30s"},
+        ],
+    },
     "C15": {
         "level": "exploration",
         "technique": "property-based testing: rapid state machine vs per-subscriber FIFO model + generated concurrent runs with schedule-independent order oracle",
